@@ -122,7 +122,12 @@ def pdesc(pdu) -> dict:
         "src": ubf(pdu.source_entity_id),
         "dst": ubf(pdu.dest_entity_id),
         "seq": ubf(pdu.transaction_seq_num),
+        "plen": pdu.packet_len,
     }
+    try:
+        d["packed"] = len(pdu.pack())
+    except Exception as e:  # noqa: BLE001
+        d["packed"] = f"<{type(e).__name__}>"
     if pdu.pdu_type == PduType.FILE_DATA:
         d.update(T="FD", off=pdu.offset, data=pdu.file_data.hex(), segmeta=pdu.has_segment_metadata)
         return d
